@@ -58,6 +58,11 @@ fn plan_module(r: &mut Rng, dir: &str, k: usize, hostile: bool) -> ModPlan {
     if Rng::new(r.0 ^ 0x5be0_cd19_137e_2179).chance(1, 5) {
         kind = "tail";
     }
+    // a part of this file, the linker-style inaccessible page, then a part of a *different* file: two modules, the page
+    // between them belongs to neither — side stream
+    if Rng::new(r.0 ^ 0x1f83_d9ab_5be0_cd19).chance(1, 6) {
+        kind = "foreign";
+    }
     if kind == "empty-id" {
         spec.build_id = Some(vec![0u8; 20]); // an all-zero identifier: the mapping is not a module
         spec.note_phdr = true;
@@ -102,6 +107,11 @@ fn plan_module(r: &mut Rng, dir: &str, k: usize, hostile: bool) -> ModPlan {
         "split" => format!("0:1:r,0x1000:{}:rx", want_pages - 1),
         "gap" => format!("0:1:rx,g:{},0x1000:{}:rw", r.range(1, 3), want_pages - 1),
         "tail" => format!("0:{}:rx,g:{}", want_pages, Rng::new(r.0 ^ 0x1234).range(1, 3)),
+        "foreign" => {
+            let other = format!("{}/m{}-other.so.2", dir, k);
+            std::fs::write(&other, &bytes).unwrap();
+            format!("0:1:r,g:1,@{}@0:1:{}", hex(other.as_bytes()), *Rng::new(r.0 ^ 0x4321).pick(&["r", "rx"]))
+        }
         "archive" => format!("0x1000:{}:rx", want_pages),
         "ro-nonzero" => format!("0x1000:{}:r", want_pages - 1),
         "rw" => format!("0:{}:rw", want_pages),
